@@ -112,11 +112,11 @@ CHECKS.update({
 # what later rounds of seeded changes added to each generator / oracle (DESIGN.md 13)
 MORE = {
     "C01": "Also: files moved across sub-directory boundaries of source directories, symbolic links inside source directories to files outside them, always= toggled, recursive helpers, and a dry run followed by Run with nil options on one loaded project.",
-    "C02": "Also: a build over an unreadable source (which fails and must execute nothing) between the no-op rebuilds, and recursive helpers whose definitions move when comments are inserted.",
+    "C02": "Also: a build over an unreadable source (which fails and must execute nothing) between the no-op rebuilds, and recursive helpers whose definitions move when comments are inserted. A quarter of the checked rebuilds are performed by another OS process (the test binary started again on the tree the parent left behind), so that state which depends on what the Go runtime randomises per process shows; a source may be listed twice under two spellings.",
     "C03": "Also: a mode in which an always=True target is interrupted and always= is then removed before the recovery build.",
     "C04": "Also: a cyclic-dependency error handed for a request none of whose targets depends on the requester is a wrong outcome; project level: Run again on the kept project, and 'the build returned an error although no body failed in it'.",
     "C06": "Also: watch-mode sequences on one loaded project - an edit breaks the load graph (failing module, self-load, two-module cycle), Reload must fail and name a cycle, the edit is undone, Reload must succeed and list the project's targets.",
-    "C08": "Also: helpers with keyword-only parameters without default, functions / structs / tuples holding functions as dict keys and set elements, the built tree renamed to another directory and rebuilt (nothing may execute), and a default list the body appends to with two further runs on the kept project (the second must re-execute it).",
+    "C08": "Also: helpers with keyword-only parameters without default, functions / structs / tuples holding functions as dict keys and set elements, the built tree renamed to another directory and rebuilt (nothing may execute), and a default list the body appends to with two further runs on the kept project (the second must re-execute it); a value with heavy sharing (49 lists, 2^48 paths); a quarter of the stability checks run in another OS process; a build that does not come back within 30 s of real time is fingerprint-hang.",
     "C10": "Also: the root naming one path twice, one resolver resolving another root first, requirements at pseudo-versions, projects two directories below the repository root.",
     "C11": "Also: projects whose tags are all prereleases, several projects sharing a configured name.",
     "C13": "Also: real builds between dry runs that are interrupted (crash_at); the twin history performs a load wherever the first performs a dry run.",
